@@ -122,6 +122,39 @@ func (r *mwRun) changesStep(s MWStep, where string) error {
 		}
 	}
 	a, b := r.snaps[i], r.snaps[j]
+	if s.Cut == 2 {
+		// version vector: one side names the versions of two recordings at once (what a
+		// read-only handle on an unmerged frontier reports); its rows are those of the
+		// union of the operation sets the names were published with
+		n := len(r.snaps)
+		x, y := r.snaps[s.Ref%n], r.snaps[(s.Ref%n+1+(s.Ref/n)%(n-1))%n]
+		nameSet := map[string]bool{}
+		u := MSet{}
+		for _, nm := range append(parseVersionList(x.Version), parseVersionList(y.Version)...) {
+			pb, ok := r.pub[nm]
+			if !ok {
+				return nil
+			}
+			nameSet[nm] = true
+			u.Union(pb)
+		}
+		var names []string
+		for nm := range nameSet {
+			names = append(names, `"`+nm+`"`)
+		}
+		sort.Strings(names)
+		if s.Ref%3 == 0 {
+			names[0], names[len(names)-1] = names[len(names)-1], names[0]
+		}
+		vec := verSnap{Version: "[" + strings.Join(names, ",") + "]", Rows: u.Rows(wideCols)}
+		a, b = r.snaps[j], vec
+		if s.Mask%2 == 1 {
+			a, b = b, a
+		}
+		if len(names) >= 2 {
+			r.o.Class("changes-version-vector")
+		}
+	}
 	if len(parseVersionList(a.Version)) == 0 || len(parseVersionList(b.Version)) == 0 {
 		return nil
 	}
@@ -223,7 +256,7 @@ func genWithExtra(t *rapid.T, g mwGenCfg, ops []string, every int) MWCase {
 		out = append(out, s)
 		if rapid.IntRange(0, every-1).Draw(t, "extra") == 0 {
 			out = append(out, MWStep{Op: rapid.SampledFrom(ops).Draw(t, "extraop"),
-				Ref: rapid.IntRange(0, 1000).Draw(t, "i"), Mask: rapid.IntRange(0, 1000).Draw(t, "j"), Cut: int64(rapid.IntRange(0, 1).Draw(t, "far"))})
+				Ref: rapid.IntRange(0, 1000).Draw(t, "i"), Mask: rapid.IntRange(0, 1000).Draw(t, "j"), Cut: int64(rapid.IntRange(0, 2).Draw(t, "far"))})
 		}
 	}
 	out = append(out, MWStep{Op: ops[0], Ref: 0, Mask: 1 << 20, Cut: 1})
@@ -253,7 +286,9 @@ func c12Gen() mwGenCfg {
 func TestC12_Changes(t *testing.T) {
 	st := newStats(t, "C12", "TestC12_Changes", "the histories of C11 (updates, deletes, re-inserts, merges; entries_per_node 2-4 so versions are multi-node and share subtrees); ordered pairs (A,B) of recorded versions incl. A after B, A=B and versions of different writers; s3db_changes(from=A,to=B) must return only rows of B, each once, and every row of B that is absent from or different in A, without failing; in fault mode the same query is repeated with the p-th storage request of the diff failing, for every p: it must fail or still satisfy both directions; non-trivial = a pair with rows deleted, changed and added between A and B on multi-node trees")
 	g := c12Gen()
-	checkRapid(t, st, func(rt *rapid.T) MWCase { return genWithExtra(rt, g, []string{"changes", "changes", "changes-fault"}, 4) }, runMW)
+	checkRapid(t, st, func(rt *rapid.T) MWCase {
+		return genWithExtra(rt, g, []string{"changes", "changes", "changes-fault"}, 4)
+	}, runMW)
 }
 
 // ---------------------------------------------------------------------------
